@@ -24,6 +24,10 @@ Definition emit_spec (d : list A) (pos : nat) (xs : list A) : list A * nat :=
 Definition emit_backward_spec (d : list A) (dlast : nat) (xs : list A) : list A * nat :=
   (firstn (dlast - length xs) d ++ xs ++ skipn dlast d, dlast - length xs).
 
+(* [alg.generate]: the values successive calls of a generator yield (the generator as a state machine) *)
+Fixpoint gen_values {S : Type} (k : nat) (g : S -> A * S) (s : S) : list A :=
+  match k with O => [] | Datatypes.S k' => let '(v, s') := g s in v :: gen_values k' g s' end.
+
 (* [alg.nth.element]: for every i in [first, nth) and j in [nth, last): !comp( *j, *i) *)
 Definition nth_element_post (lt : A -> A -> bool) (l : list A) (nth : nat) : Prop :=
   forall i j x y, i < nth -> nth <= j -> get l i = Some x -> get l j = Some y -> lt y x = false.
